@@ -94,8 +94,10 @@ def parseEntry (ws : List String) : Entry :=
     nlink := (optInt (kv ws "nlink") 0) % 4294967296 }
 
 /-- The chunk sequence the harness feeds to `archive_write_data`. -/
-def mkChunks (seed len : Nat) (sizes : List Nat) : List (List Nat) :=
-  let body := (List.range len).map (bodyByte seed)
+def mkChunks (seed len : Nat) (sizes : List Nat) (sparse : List (Nat × Nat) := []) : List (List Nat) :=
+  -- with a sparse map the harness hands over NUL bytes outside the listed data regions
+  let isData (i : Nat) : Bool := sparse.isEmpty || sparse.any fun r => r.1 ≤ i && i < r.1 + r.2
+  let body := (List.range len).map fun i => if isData i then bodyByte seed i else 0
   let rec go (fuel pos : Nat) (cyc : List Nat) (acc : List (List Nat)) : List (List Nat) :=
     match fuel with
     | 0 => acc.reverse
@@ -217,7 +219,14 @@ def stepLine (d : DState) (op obs : String) : DState × String :=
             let sizes := match kv ws "chunks" with
               | some c => (c.splitOn ",").filterMap String.toNat?
               | none => []
-            mkChunks (sd.toNat?.getD 0) (ln.toNat?.getD 0) sizes
+            let sparse : List (Nat × Nat) := match kv ws "sparse" with
+              | none => [] | some "-" => []
+              | some l => (l.splitOn ",").filterMap fun it => match it.splitOn ":" with
+                | [o, n] => match o.toNat?, n.toNat? with
+                  | some o, some n => some (o, n)
+                  | _, _ => none
+                | _ => none
+            mkChunks (sd.toNat?.getD 0) (ln.toNat?.getD 0) sizes sparse
           | _ => []
       let nofinish := (kv ws "nofinish").isSome
       let (hs, hb, st1) := writeHeader f d.ws e
